@@ -12,6 +12,9 @@ Toposort (model `PCV.Model.Toposort` of internal/toposort):
 * `sort_full_refuted`   hence the property's clause "on cyclic input it still terminates and
                         yields each reachable node once" is false of the code (witness: 0 → 0)
 * `sort_partial`        the strongest true version (= `sort_dag`)
+* `pass_independent_of_history`  after any history of Sort calls and complete / broken-off /
+                        panicking / nested passes on one Sorter, a pass over a sequence is
+                        exactly a fresh `sort` of its own graph and roots
 
 Trie (model `PCV.Model.Trie` of internal/trie), for every insertion history `ops`
 (`build ops {} = some t`; `lastValue ops k` = value most recently inserted for `k`):
@@ -175,6 +178,55 @@ example : WF [[1, 2, 1], [3], [3], []] [0, 3] := ⟨by decide, by decide⟩
 -- a two-node cycle below an acyclic prefix: one node is yielded before the panic
 example : sort [[1], [2, 3], [], [1]] [2, 0] = .panic [2] { suffix := [1, 3], node := 1 } := by decide
 
+
+/-! ### Re-using a Sorter: every pass over a sequence is a fresh sort -/
+
+/-- a pass on a fresh Sorter is `sort`, and leaves the Sorter fresh (the deferred clear) -/
+theorem range_fresh (g : Graph) (roots : List Nat) (limit : Option Nat) :
+    Sorter.fresh.range g roots limit = (sort g roots limit, Sorter.fresh) := rfl
+
+/-- the Sorter after any pass — completed, broken off, or panicked — is the fresh one -/
+theorem range_leaves_fresh (s : Sorter) (g : Graph) (roots : List Nat) (limit : Option Nat) :
+    (s.range g roots limit).2 = Sorter.fresh := rfl
+
+theorem nest_leaves_fresh (s : Sorter) (g : Graph) (roots : List Nat) (j : Nat) :
+    (s.nest g roots j).2 = Sorter.fresh := by
+  unfold Sorter.nest
+  split <;> rfl
+
+/-- what a user does with one Sorter: make sequences (`Sort` calls), range over any of them
+    any number of times with or without breaking off, or nest two passes -/
+inductive Use where
+  | sortCall
+  | pass (g : Graph) (roots : List Nat) (limit : Option Nat)
+  | nested (g : Graph) (roots : List Nat) (j : Nat)
+
+def useStep (s : Sorter) : Use → Sorter
+  | .sortCall => s.sortCall
+  | .pass g roots limit => (s.range g roots limit).2
+  | .nested g roots j => (s.nest g roots j).2
+
+/-- **Passes are independent.** After ANY history of Sort calls, complete passes, broken-off
+    passes, panicking passes and nested passes on a Sorter, a pass over a sequence made from
+    `(g, roots)` returns exactly what a brand-new sort of `(g, roots)` returns. Hence ranging a
+    sequence twice yields the same order twice, breaking off does not poison later passes,
+    and sequences of different `Sort` calls do not influence each other. -/
+theorem pass_independent_of_history (hist : List Use) (g : Graph) (roots : List Nat)
+    (limit : Option Nat) :
+    ((hist.foldl useStep Sorter.fresh).range g roots limit).1 = sort g roots limit := by
+  have hstep : ∀ u, useStep Sorter.fresh u = Sorter.fresh := by
+    intro u
+    cases u with
+    | sortCall => rfl
+    | pass g r l => rfl
+    | nested g r j => exact nest_leaves_fresh _ _ _ _
+  have hfresh : ∀ (h : List Use), h.foldl useStep Sorter.fresh = Sorter.fresh := by
+    intro h
+    induction h with
+    | nil => rfl
+    | cons u h ih => rw [List.foldl_cons, hstep, ih]
+  rw [hfresh]
+  rfl
 
 /-! ## Trie -/
 
@@ -497,3 +549,4 @@ end PCV.Props.C41
 #print axioms PCV.Props.C41.trie_grow_preserves
 #print axioms PCV.Props.C41.build_total
 #print axioms PCV.Props.C41.lastValue_some_iff
+#print axioms PCV.Props.C41.pass_independent_of_history
